@@ -832,6 +832,7 @@ class Interp:
             self.assign_target(st, s.target, elem, fr)
             mark = len(st.trace)
             st.ghost["loop_elem"] = elem
+            st.ghost["loop_index"] = i  # ghost: the index of the arbitrary iteration (read-only, contract side)
             try:
                 self.exec_block(st, s.body, fr)
             except _Break:
@@ -1267,11 +1268,42 @@ class Interp:
             return x is None
         if isinstance(a, (bool, SBool)) and isinstance(b, (bool, SBool)):
             return self.equals(st, a, b)
+        if isinstance(a, SOpaque) and isinstance(b, SOpaque) and a.kind == b.kind and self._opaque_eq_hook(a) is not None:
+            # identity of two individuals of a kind whose `==` is coarser than identity (protocol hook `py_eq`,
+            # see equals): `is` stays identity -- CPython never calls __eq__ for `is`
+            return mk_bool(a.e == b.e)
         if isinstance(a, SOpaque) or isinstance(b, SOpaque):
             return self.equals(st, a, b)
         if isinstance(a, SAtom) or isinstance(b, SAtom):
             return self.equals(st, a, b)
         return a is b
+
+    @staticmethod
+    def _opaque_eq_hook(x):
+        from .api import PROTOCOLS
+
+        return getattr(PROTOCOLS.get(x.kind), "py_eq", None)
+
+    def _seq_equals(self, st, a, b):
+        """`a == b` for two sequences of the same Python type (both lists: LRef, or both tuples: tuple / SSeq) of
+        which at least one has a symbolic length: equal lengths and pairwise equal elements, which is what CPython's
+        list.__eq__ / tuple.__eq__ compute (element test `x is y or x == y`: `equals` is reflexive on the scalar
+        values admitted here).  Only scalar elements (opaque individuals, ints, bools, atoms) are admitted: an
+        element comparison must not fork inside the quantifier.  Cross-check: spec/xcheck_cases.py x_seq_eq."""
+        na, nb = Q.seq_len(a), Q.seq_len(b)
+
+        def elem(j):
+            x, y = Q.seq_get(a, j), Q.seq_get(b, j)
+            for v in (x, y):
+                if not (isinstance(v, (SOpaque, SInt, SBool, SAtom, int, bool, str)) or v is None):
+                    raise Unsupported(f"equality of symbolic sequences with elements of type {type(v).__name__}")
+            return self.equals(st, x, y)
+
+        if isinstance(na, int) and isinstance(nb, int) and na != nb:
+            return False
+        # (a concrete length, if there is one, bounds the element comparison: no read beyond a concrete sequence)
+        bound = nb if isinstance(nb, int) else na
+        return both(V._cmp("==", na, nb) if V.is_sym(na) or V.is_sym(nb) else na == nb, V.forall(0, bound, elem))
 
     def equals(self, st, a, b):
         if isinstance(a, SOpt) and b is not None:
@@ -1298,6 +1330,11 @@ class Interp:
                     for j, c in enumerate(y.seq):
                         r = both(r, self.equals(st, Q.seq_get(x, j), c))
                     return r
+            if isinstance(a, LRef) != isinstance(b, LRef):
+                if all(isinstance(x, (LRef, SSeq, tuple)) for x in (a, b)):
+                    return False  # a list never equals a tuple
+            elif all(isinstance(x, (LRef, SSeq, tuple)) for x in (a, b)):
+                return self._seq_equals(st, a, b)
             raise Unsupported("equality of symbolic sequences")
         if getattr(a, "is_text", False) or getattr(b, "is_text", False):
             # a modelled text against a text or a str/bytes literal: same kind, same length, same elements;
@@ -1309,6 +1346,13 @@ class Interp:
                     raise Unsupported(f"equality of a text and {type(b if getattr(a, 'is_text', False) else a).__name__}")
                 return False
             return text_eq(a, b)
+        if isinstance(a, SOpaque) and isinstance(b, SOpaque) and a.kind == b.kind:
+            # `==` of two individuals of a kind whose protocol declares its own equality (`py_eq(st, a, b)`: an
+            # equivalence that contains identity, e.g. bound methods of the same function and object are equal
+            # without being the same object); `is` keeps comparing identities (see is_)
+            h = self._opaque_eq_hook(a)
+            if h is not None:
+                return h(st, a, b)
         for x, y in ((a, b), (b, a)):
             # an opaque individual compared with a plain constant: the protocol may answer (`eq_const`), e.g. an
             # abstract key event that may or may not be the string "esc"; without the hook: unequal, as before
